@@ -212,6 +212,13 @@ func (p *c03) build(c fw.Case, r *fw.Rec) pairBuild {
 		} else if arity == 0 && rnd.Chance(1, 3) && op != "?:" {
 			form = "command-style"
 		}
+		multiLine := form == "function" && arity >= 1 && rnd.Chance(1, 3)
+		if multiLine {
+			// the operand spans several lines; the frame names the line it starts on and its one-line code text
+			form = "multi-line-call"
+			call = fmt.Sprintf("%s(\n\t\t%d,\n\t\t%v,\n\t)", callee, k, fail)
+			code = fmt.Sprintf("%s(\n\t%d,\n\t%v,\n)", callee, k, fail) // the printer re-indents the operand
+		}
 		r.Cover("callee-form:" + form)
 		tag := fmt.Sprintf("%s/%d-values/%s", map[string]string{"!": "bang", "?": "question", "?:": "default"}[op], arity, form)
 		// ---- enclosing function ----
